@@ -626,10 +626,10 @@ fn main() {
     ctx.assume("the agent-side lifecycle trace (on_event / on_update / on_remove / on_clear) is the ground truth for the states a lane held (checked independently by C06; map lanes: cross-checked against a probe sync in C02)");
     ctx.assume("[t0, t1] = [sync request fully written by the remote, synced frame read by the remote] contains the true window in which the lane served the sync, so requiring the replica's state to occur inside it is sound");
     ctx.assume("single-threaded harness-owned schedule; op-level interleavings of agent task vs remotes");
-    let n = ctx.pick(160_000, 6_000_000);
-    let max_ops = ctx.pick(60, 200);
+    let n = ctx.pick(160_000, 3_000_000);
+    let max_ops = ctx.pick(60, 150);
     ctx.prop("sync-map", n, move || arb_case(true, max_ops), |c: &Case| check(true, c));
-    let n = ctx.pick(100_000, 4_000_000);
+    let n = ctx.pick(100_000, 2_000_000);
     ctx.prop("sync-value", n, move || arb_case(false, max_ops), |c: &Case| check(false, c));
     ctx.finish();
 }
